@@ -137,22 +137,23 @@ inductive Respond where
   | dflt | drop | send
   deriving DecidableEq, Repr
 
+/-- the tail of no_response(): "Do not send error responses for requests that were received via IP multicast" -/
+def mcastTail (cfg : Cfg) (rq : Request) (resFlags : Option Nat) (r : Reply) : Respond :=
+  if rq.mcast then
+    if rq.msg.type = NON ∧ r.type = RST then .drop
+    else if (resFlags.isNone ∨ cfg.mpr = false) ∧ codeClass r.code > 2 then .drop
+    else .dflt
+  else .dflt
+
 /-- no_response(): the verdict and the (possibly emptied) response -/
 def noResponse (cfg : Cfg) (rq : Request) (resFlags : Option Nat) (r : Reply) : Respond × Reply :=
   let cls := codeClass r.code
-  let mcastTail : Respond :=
-    -- "Do not send error responses for requests that were received via IP multicast"
-    if rq.mcast then
-      if rq.msg.type = NON ∧ r.type = RST then .drop
-      else if (resFlags.isNone ∨ cfg.mpr = false) ∧ cls > 2 then .drop
-      else .dflt
-    else .dflt
   if cls > 0 then
     match firstOpt rq.msg.opts 258 with
     | some v =>
       let val := uintOf v % 4294967296
       if (2 ^ (cls - 1)) &&& val > 0 then
-        if r.type = ACK then (.send, { r with code := 0, token := [], opts := [], body := .bytes [] })
+        if r.type = ACK then (.send, emptied r)
         else (.drop, r)
       else (.send, r)
     | none =>
@@ -161,103 +162,117 @@ def noResponse (cfg : Cfg) (rq : Request) (resFlags : Option Nat) (r : Reply) : 
         if cfg.mpr ∧ rq.mcast then
           if flag fl F_SUPPRESS_2_XX ∧ cls = 2 then (.drop, r)
           else if flag fl F_SUPPRESS_2_05 ∧ r.code = 69 then
-            if r.body = .bytes [] then (.drop, r) else (mcastTail, r)
+            if r.body = .bytes [] then (.drop, r) else (mcastTail cfg rq resFlags r, r)
           else if ¬ flag fl F_DIS_SUPPRESS_4_XX ∧ cls = 4 then (.drop, r)
           else if ¬ flag fl F_DIS_SUPPRESS_5_XX ∧ cls = 5 then (.drop, r)
-          else (mcastTail, r)
-        else (mcastTail, r)
-      | none => (mcastTail, r)
+          else (mcastTail cfg rq resFlags r, r)
+        else (mcastTail cfg rq resFlags r, r)
+      | none => (mcastTail cfg rq resFlags r, r)
   else if r.code = 0 ∧ r.type = NON then (.drop, r)
-  else (mcastTail, r)
+  else (mcastTail cfg rq resFlags r, r)
 
-/-- skip_handler: … no_response, Observe removal, empty-ACK token stripping, send -/
+/-- "No delays to response": coap_send_internal(); else the leisure-delayed path (coap_wait_ack), which skips the 5.08 fix-up -/
+def immediate (cfg : Cfg) (rq : Request) (resFlags : Option Nat) : Bool :=
+  !rq.mcast || (cfg.mpr && (match resFlags with | some fl => flag fl F_DIS_MCAST_DELAYS | none => false))
+
+/-- skip_handler: after no_response — Observe removal, empty-ACK token stripping, send -/
+def post (cfg : Cfg) (rq : Request) (resFlags : Option Nat) (observe : Bool) (p : Respond × Reply) : List Reply :=
+  if p.1 = .drop then [] else
+  -- coap_remove_option(response, COAP_OPTION_OBSERVE) unless 2.xx; "Remove token from otherwise-empty acknowledgment PDU"
+  let r3 := ackStrip (stripObserve observe p.2)
+  [if immediate cfg rq resFlags then sendFix rq.mcast r3 else r3]
+
 def deliver (cfg : Cfg) (rq : Request) (resFlags : Option Nat) (observe : Bool) (r : Reply) : List Reply :=
-  let (resp, r1) := noResponse cfg rq resFlags r
-  if resp = .drop then [] else
-  let r2 := if codeClass r1.code ≠ 2 ∧ observe then { r1 with opts := r1.opts.filter (·.1 != 6) } else r1
-  let r3 := if r2.type = ACK ∧ r2.code = 0 then { r2 with token := [], opts := [], body := .bytes [] } else r2
-  -- "No delays to response": coap_send_internal(); else the leisure-delayed path (coap_wait_ack), which skips the 5.08 fix-up
-  let immediate : Bool := !rq.mcast || (cfg.mpr && (match resFlags with | some fl => flag fl F_DIS_MCAST_DELAYS | none => false))
-  [if immediate then sendFix rq.mcast r3 else r3]
+  post cfg rq resFlags observe (noResponse cfg rq resFlags r)
 
 /-! ### handle_request -/
-def handleRequest (cfg : Cfg) (tbl : Table) (rq : Request) (critOpt : Bool) (os : Opts) : Outcome :=
+/-- where a block of handle_request() leaves: `resp = …; goto fail_response` (with the value `resource` has at that point:
+none = NULL, some flags), `return`, or falling through with what it computed -/
+inductive Jump where
+  | fail (resp : Nat) (resource : Option Nat)
+  | ret
+  | go (isProxy : Bool) (os : Opts) (path : Bytes)
+  deriving DecidableEq, Repr
+
+/-- lines "Proxy-Scheme requires Uri-Host" … `uri_path = coap_get_uri_path(pdu)`: proxy options, Hop-Limit, path -/
+def preStage (tbl : Table) (rq : Request) (critOpt : Bool) (os : Opts) : Jump :=
   let m := rq.msg
-  let fail (resp : Nat) (resFlags : Option Nat) : Outcome :=
-    ⟨true, deliver cfg rq resFlags false (errReply m os resp Filter.empty), none⟩
-  if rq.mcast ∧ m.type ≠ NON then Outcome.nothing else
-  -- (no async state on a fresh context)
   let isProxyScheme := hasOpt os 39
-  if isProxyScheme ∧ ¬ hasOpt os 3 then fail 130 none else
+  if isProxyScheme ∧ ¬ hasOpt os 3 then .fail 130 none else
   let isProxyUri := hasOpt os 35
-  -- the proxy block: some (stillProxy, skipHop) or a failure
-  let proxyStage : Outcome ⊕ (Bool × Bool) :=
+  -- the proxy block: (is_proxy_uri || is_proxy_scheme afterwards, skip_hop_limit_check) or a jump
+  let proxyStage : Jump ⊕ (Bool × Bool) :=
     if isProxyScheme ∨ isProxyUri then
       match tbl.prx with
-      | none => .inl (fail 165 none)
+      | none => .inl (.fail 165 none)
       | some p =>
-        if 1 ≤ m.code ∧ m.code ≤ 7 ∧ ¬ handlerBit p.mask m.code then .inl (fail 165 none) else
+        if 1 ≤ m.code ∧ m.code ≤ 7 ∧ ¬ handlerBit p.mask m.code then .inl (.fail 165 none) else
         let host : Option Bytes :=
           if isProxyUri then (match rq.pu with | .ok h _ => some h | _ => none)
           else some ((firstOpt os 3).getD [])
         match host with
-        | none => .inl (fail 165 none)
+        | none => .inl (.fail 165 none)
         | some h =>
           -- proxy_name_count = 1
           if h.length ≠ 0 ∧ (p.name.length = 0 ∨ h = p.name) then
-            if critOpt then .inl (fail 130 (some p.flags)) else .inr (false, true)
+            if critOpt then .inl (.fail 130 (some p.flags)) else .inr (false, true)
           else .inr (true, false)
     else .inr (false, false)
   match proxyStage with
-  | .inl o => o
+  | .inl j => j
   | .inr (isProxy, skipHop) =>
-  -- Hop-Limit
-  let hopStage : Outcome ⊕ Opts :=
+  let hopStage : Jump ⊕ Opts :=
     if skipHop then .inr os else
     match firstOpt os 16 with
     | none => .inr os
     | some v =>
       let hop := uintOf v % 4294967296
-      if hop = 1 then .inl (fail 168 none)
-      else if hop < 1 ∨ hop > 255 then .inl (fail 128 none)
+      if hop = 1 then .inl (.fail 168 none)
+      else if hop < 1 ∨ hop > 255 then .inl (.fail 128 none)
       else .inr (setHop (hop - 1) os)
   match hopStage with
-  | .inl o => o
+  | .inl j => j
   | .inr os =>
   -- coap_get_uri_path
   let pathOpt : Option Bytes :=
     if hasOpt os 35 then (match rq.pu with | .ok _ p => some p | _ => none) else some (uriPath os)
   match pathOpt with
-  | none => Outcome.nothing
-  | some path =>
+  | none => .ret
+  | some path => .go isProxy os path
+
+/-- "try to find the resource from the request URI" … the selection cascade; inl = `resp` of `goto fail_response` -/
+def selectStage (tbl : Table) (code : Nat) (isProxy : Bool) (path : Bytes) : Nat ⊕ Sel :=
   let found : Option Sel := if isProxy then none else (findRes tbl.res path 0).map fun x => Sel.res x.1 x.2
   let unkFor : Option Special :=
     match tbl.unk with
-    | some u => if handlerBit u.mask m.code then some u else none
+    | some u => if handlerBit u.mask code then some u else none
     | none => none
-  let sel : Nat ⊕ Sel :=
-    match found with
-    | some s => .inr s
-    | none =>
-      if isProxy then (match tbl.prx with | some p => .inr (.prx p) | none => .inl 160)
-      else match unkFor with
-        | some u => if flag u.flags F_HANDLE_WKC then .inr (.unk u)
-                    else if path = wellKnownCore then .inr .wk else .inr (.unk u)
-        | none =>
-          if path = wellKnownCore then .inr .wk
-          else if m.code = 4 then .inl 66
-          else .inl 132
-  match sel with
-  | .inl resp => fail resp none
-  | .inr sel =>
+  match found with
+  | some s => .inr s
+  | none =>
+    if isProxy then (match tbl.prx with | some p => .inr (.prx p) | none => .inl 160)
+    else match unkFor with
+      | some u => if flag u.flags F_HANDLE_WKC then .inr (.unk u)
+                  else if path = wellKnownCore then .inr .wk else .inr (.unk u)
+      | none =>
+        if path = wellKnownCore then .inr .wk
+        else if code = 4 then .inl 66
+        else .inl 132
+
+/-- OSCORE-only … per-resource multicast support: `resp` of `goto fail_response`, or none -/
+def checkStage (cfg : Cfg) (rq : Request) (os : Opts) (sel : Sel) : Option Nat :=
+  if flag sel.flags F_OSCORE_ONLY then some 129 else
+  if sel.exists_ ∧ hasOpt os 5 then some 140 else
+  if ¬ handlerBit sel.mask rq.msg.code then some 133 else
+  if rq.msg.code = 5 ∧ ¬ hasOpt os 12 then some 143 else
+  if cfg.mpr ∧ ¬ flag sel.flags F_HAS_MCAST ∧ rq.mcast then some 133 else none
+
+/-- `response = coap_pdu_init(...)` … the end of handle_request() -/
+def runStage (cfg : Cfg) (rq : Request) (os : Opts) (path : Bytes) (sel : Sel) : Outcome :=
+  let m := rq.msg
   let fl := some sel.flags
-  if flag sel.flags F_OSCORE_ONLY then fail 129 fl else
-  if sel.exists_ ∧ hasOpt os 5 then fail 140 fl else
-  if ¬ handlerBit sel.mask m.code then fail 133 fl else
-  if m.code = 5 ∧ ¬ hasOpt os 12 then fail 143 fl else
-  if cfg.mpr ∧ ¬ flag sel.flags F_HAS_MCAST ∧ rq.mcast then fail 133 fl else
   let resp0 : Reply := ⟨.app, respType m.type, 0, m.mid, m.token, [], .bytes []⟩
-  let observe := sel.observable ∧ (m.code = 1 ∨ m.code = 5) ∧ hasOpt os 6
+  let observe : Bool := sel.observable && (m.code == 1 || m.code == 5) && hasOpt os 6
   -- observe establish: Block2 with num ≠ 0 → 4.00 without handler; else the Observe option is added
   let obsStage : Option Reply :=
     if observe then
@@ -272,7 +287,7 @@ def handleRequest (cfg : Cfg) (tbl : Table) (rq : Request) (critOpt : Bool) (os 
   | none => ⟨true, deliver cfg rq fl observe { resp0 with src := .lib, code := 128 }, none⟩
   | some resp1 =>
   -- proxy: early empty ACK, the response becomes a separate CON
-  let early := sel.isPrx ∧ m.type = CON
+  let early : Bool := sel.isPrx && m.type == CON
   let pre : List Reply := if early then [emptyMsg ACK m.mid] else []
   match sel.who with
   | none =>
@@ -287,6 +302,24 @@ def handleRequest (cfg : Cfg) (tbl : Table) (rq : Request) (critOpt : Bool) (os 
     let r := if early then { r with type := CON } else r
     if early ∧ r.code = 0 then ⟨true, pre, some call⟩ else
     ⟨true, pre ++ deliver cfg rq fl observe r, some call⟩
+
+/-- fail_response: coap_new_error_response(pdu, resp, &opt_filter /* empty */) then `goto skip_handler` -/
+def failResponse (cfg : Cfg) (rq : Request) (os : Opts) (resp : Nat) (resource : Option Nat) : Outcome :=
+  ⟨true, deliver cfg rq resource false (errReply rq.msg os resp Filter.empty), none⟩
+
+def handleRequest (cfg : Cfg) (tbl : Table) (rq : Request) (critOpt : Bool) (os : Opts) : Outcome :=
+  if rq.mcast ∧ rq.msg.type ≠ NON then Outcome.nothing else
+  -- (no async state on a fresh context)
+  match preStage tbl rq critOpt os with
+  | .fail resp res => failResponse cfg rq os resp res
+  | .ret => Outcome.nothing
+  | .go isProxy os' path =>
+    match selectStage tbl rq.msg.code isProxy path with
+    | .inl resp => failResponse cfg rq os' resp none
+    | .inr sel =>
+      match checkStage cfg rq os' sel with
+      | some resp => failResponse cfg rq os' resp (some sel.flags)
+      | none => runStage cfg rq os' path sel
 
 /-! ### coap_dispatch, request path -/
 def serverDecision (cfg : Cfg) (tbl : Table) (rq : Request) : Outcome :=
